@@ -224,3 +224,53 @@ func VH_C02_defineRedeclares() {
 	vhAssert(gotJ == i0, "the other variable gets the value the re-declared one had before the statement")
 	vhReach("end")
 }
+
+// _, b = e0, e1 / a, _ = e0, e1 / _, _ = e0, e1 / _, *p = e0, e1: a blank place is not assigned, both right-hand sides are
+// still evaluated exactly once, the other place receives its value
+func VH_C02_Multi_blank() {
+	c := vhComp()
+	c.Depth = 1
+	envs := vhEnvChain(1)
+	env := envs[0]
+	b := vhI32("b")
+	env.Vals[1] = xr.ValueOf(&b).Elem()
+	cell := vhI32("cell")
+	var zero int32
+	t := vhTypeOf(zero)
+	blank := func() *Place { return &Place{Var: Var{Upn: 0, Desc: VarBind.MakeDescriptor(NoIndex), Type: t, Name: "_"}} }
+	vb := &Place{Var: Var{Upn: 0, Desc: VarBind.MakeDescriptor(1), Type: t, Name: "b"}}
+	pp := &Place{Var: Var{Type: t}, Fun: func(env *Env) xr.Value { return xr.ValueOf(&cell).Elem() }}
+	shape := vhPick("_, b / b, _ / _, _ / _, *p / *p, _", 5)
+	places := [][]*Place{{blank(), vb}, {vb, blank()}, {blank(), blank()}, {blank(), pp}, {pp, blank()}}[shape]
+	assign := make([]Assign, 2)
+	assign[0].init(c, places[0])
+	assign[1].init(c, places[1])
+	x, y := vhI32("x"), vhI32("y")
+	n0, n1 := 0, 0
+	efuns := []func(*Env) xr.Value{
+		func(env *Env) xr.Value { n0++; return xr.ValueOf(x) },
+		func(env *Env) xr.Value { n1++; return xr.ValueOf(y) },
+	}
+	oldb, oldcell := b, cell
+	stmt, cerr := vhCompileOne(c, func() { c.assign2(assign, efuns) })
+	vhAssert(!cerr, "compiles to one statement")
+	if cerr {
+		return
+	}
+	ok, panicked := vhRunStmt(stmt, env)
+	vhAssert(!panicked && ok, "runs, advances IP by one")
+	vhAssert(n0 == 1 && n1 == 1, "each right-hand side evaluated exactly once")
+	wantb, wantcell := oldb, oldcell
+	switch shape {
+	case 0:
+		wantb = y
+	case 1:
+		wantb = x
+	case 3:
+		wantcell = y
+	case 4:
+		wantcell = x
+	}
+	vhAssert(b == wantb && cell == wantcell, "the non-blank place receives its value, nothing else changes")
+	vhReach("end")
+}
